@@ -34,6 +34,40 @@ def vroom_consts(n, b, f_max):
     return {"sd": sd, "w2": int(w2.to_integral_value()), "invC": invC}
 
 
+class ScriptedRNG:
+    """np.random.choice / randint / uniform replaced so that VROOM's sampling follows a TLC behaviour"""
+
+    def __init__(self, script):
+        self.samples = [x[0] for x in script]
+        self.signs = [s for x in script for s in x[1]]
+        self.under = 0
+
+    def choice(self, a, p=None, *args, **kw):
+        if not self.samples:
+            self.under += 1
+            return a[0]
+        return a[self.samples.pop(0)]
+
+    def randint(self, low, high=None, *args, **kw):
+        if high is None and low == 2:
+            if not self.signs:
+                self.under += 1
+                return 0
+            return self.signs.pop(0)
+        return 0 if high is None else low
+
+    def uniform(self, low=0.0, high=1.0, *args, **kw):
+        return (low + high) / 2.0
+
+    def __enter__(self):
+        self.o = (np.random.choice, np.random.randint, np.random.uniform)
+        np.random.choice, np.random.randint, np.random.uniform = self.choice, self.randint, self.uniform
+        return self
+
+    def __exit__(self, *a):
+        np.random.choice, np.random.randint, np.random.uniform = self.o
+
+
 def run_vroom(cfg):
     try:
         return _run(cfg)
@@ -59,6 +93,17 @@ def _run(cfg):
     hm = prm.get("h_max", 100)
     P = {"kind": cfg["kind"], "K": cfg["K"], "D": D, "metric": "rank", "arity": 2, "algo": "VROOM", "S": S, "RU": RU, "band": cfg.get("band", 6), "hcap": min(hm, n)}
     P.update(c)
+    rng = ScriptedRNG(cfg["script"]) if cfg.get("script") else None
+    if rng:
+        rng.__enter__()
+    try:
+        return _drive(cfg, part, dom, n, T, prm, P, RU, D, box, before, rng)
+    finally:
+        if rng:
+            rng.__exit__()
+
+
+def _drive(cfg, part, dom, n, T, prm, P, RU, D, box, before, rng):
     algo = A.build("VROOM", part, dom, n, prm)
 
     def ext(nd):
@@ -81,7 +126,10 @@ def _run(cfg):
         ev = rec.events[-1]
         ev["prob"] = [int(round(float(p) * (1 << 20))) for p in algo.prob]
         ev["inside"] = rec.tree.containing(pt)
-        r = grid_reward(cfg["pattern"], rnd, RU, pt, box)
+        if cfg.get("rewards") is not None:
+            r = cfg["rewards"][i] / RU
+        else:
+            r = grid_reward(cfg["pattern"], rnd, RU, pt, box)
         rec.recv(t0 + i, r, rcode=int(round(r * RU)))
         if rec.failed:
             break
@@ -89,5 +137,7 @@ def _run(cfg):
         rec.glp()
     rec.end(before, dom)
     tr = rec.finalize(extra_boxes=[tuple((b[0], b[1]) for b in box)])
-    tr["cfg"] = {"algo": "VROOM", "kind": cfg["kind"], "K": cfg["K"], "D": D, "n": n, "T": T, "seed": cfg["seed"], "pattern": cfg["pattern"], "prm": {k: v for k, v in prm.items() if isinstance(v, (int, float, str))}, "box": cfg["box"]}
+    if rng and (rng.under or rng.samples or rng.signs):
+        tr["script_mismatch"] = [rng.under, len(rng.samples), len(rng.signs)]
+    tr["cfg"] = {"algo": "VROOM", "kind": cfg["kind"], "K": cfg["K"], "D": D, "n": n, "T": T, "seed": cfg["seed"], "pattern": cfg.get("pattern", "script"), "prm": {k: v for k, v in prm.items() if isinstance(v, (int, float, str))}, "box": cfg["box"]}
     return tr
